@@ -78,14 +78,15 @@ Fixpoint perform_all (I : instance) (solve : oracle) (s : rstate) (ps : list pri
 Definition add_info (s : rstate) (line : string) : rstate :=
   mkRS (r_cs s) (r_objs s) (r_info s +++ line) (r_status s) (r_vals s) (r_trace s) (r_nsolves s).
 
-(* run_optimisations: criteria in list order; exit after the first criterion that leaves a
-   non-optimal status *)
+(* run_optimisations: criteria in list order; exit after the first criterion that solved something and left a
+   non-optimal status (a criterion without any rank to optimise solves nothing and cannot fail: repair of F14) *)
 Fixpoint run_crits (I : instance) (solve : oracle) (s : rstate) (cs : list (crit * list Z)) : result rstate :=
   match cs with
   | [] => Ok s
   | c :: t =>
       do s' <- perform_all I solve (add_info s (crit_info I c)) (expand I c);
-      if status_eqb (r_status s') Optimal then run_crits I solve s' t else Ok s'
+      if status_eqb (r_status s') Optimal || Nat.eqb (r_nsolves s') (r_nsolves s)
+      then run_crits I solve s' t else Ok s'
   end.
 
 Record run_out := mkOut {
